@@ -541,6 +541,65 @@ pub fn run(sh: &mut Shard) {
         }
         sh.end();
     }
+    // O1 over a program corpus: whatever the harness accepts must be emitted, and the emitted container must validate,
+    // round-trip bit-exactly and apply.  Shapes: the first statement of a POU is a loop / branch (back edges to offset 0),
+    // the repository's own .st files, and generated programs.
+    {
+        let mut progs: Vec<(String, String)> = Vec::new();
+        for (k, first) in ["WHILE k < DINT#3 DO\n  k := k + DINT#1;\nEND_WHILE;", "REPEAT\n  k := k + DINT#1;\nUNTIL k > DINT#3\nEND_REPEAT;", "FOR k := DINT#0 TO DINT#3 DO\n  n := n + DINT#1;\nEND_FOR;", "IF k = DINT#0 THEN\n  n := DINT#1;\nELSE\n  n := DINT#2;\nEND_IF;", "CASE k OF\n  0: n := DINT#1;\n  1..3: n := DINT#2;\nELSE\n  n := DINT#3;\nEND_CASE;"].iter().enumerate() {
+            progs.push((format!("first-statement-{k}-program"), format!("PROGRAM Main\nVAR k : DINT; n : DINT; END_VAR\n{first}\nn := n + DINT#1;\nEND_PROGRAM\n")));
+            progs.push((format!("first-statement-{k}-fb"), format!("FUNCTION_BLOCK B\nVAR k : DINT; n : DINT; END_VAR\n{first}\nEND_FUNCTION_BLOCK\nPROGRAM Main\nVAR b : B; END_VAR\nb();\nEND_PROGRAM\n")));
+            progs.push((format!("first-statement-{k}-function"), format!("FUNCTION F : DINT\nVAR k : DINT; n : DINT; END_VAR\n{first}\nF := n;\nEND_FUNCTION\nPROGRAM Main\nVAR r : DINT; END_VAR\nr := F();\nEND_PROGRAM\n")));
+        }
+        for (path, text) in crate::engines::c12::corpus_files() {
+            if text.len() < 20_000 {
+                progs.push((path, text));
+            }
+        }
+        let ngen = if thorough { 4000 } else { 400 };
+        for g in 0..ngen {
+            let mut r = rng.fork(1_000_000 + g);
+            let ext = r.bool();
+            let p = crate::gen::generate(&mut r, ext, &[]);
+            progs.push((format!("gen:{g}"), crate::gen::program_text(&p)));
+        }
+        for (i, (label, text)) in progs.iter().enumerate() {
+            if i % nshards != shard || !sh.time_left() {
+                continue;
+            }
+            let case = json!({"class": "emitted-corpus", "label": label, "text": if text.len() < 4000 { text.as_str() } else { "" }});
+            if !sh.begin("emitted-corpus", &case) {
+                continue;
+            }
+            let t2 = text.clone();
+            let r = catch(move || -> Result<bool, String> {
+                let Ok(h) = TestHarness::from_source(&t2) else { return Ok(false) };
+                let b = bytecode_bytes_from_source(&t2).map_err(|e| format!("accepted program is not emitted: {e}"))?;
+                let m = BytecodeModule::decode(&b).map_err(|e| format!("emitted container does not decode: {e}"))?;
+                m.validate().map_err(|e| format!("emitted container does not validate: {e}"))?;
+                let enc = m.encode().map_err(|e| format!("re-encode failed: {e}"))?;
+                if enc != b {
+                    return Err("encode(decode(e)) != e".to_string());
+                }
+                let mut rt = h.into_runtime();
+                rt.apply_bytecode_bytes(&b, None).map_err(|e| format!("emitted container cannot be applied: {e}"))?;
+                Ok(true)
+            });
+            match r {
+                Err(p) => sh.violation(format!("panic|emitted-corpus|{}", panic_sig(&p)), format!("{p} [{label}]"), case.clone()),
+                Ok(Err(e)) => {
+                    let cls: String = e.split(':').take(2).collect::<Vec<_>>().join(":").chars().filter(|c| !c.is_ascii_digit()).take(90).collect();
+                    sh.violation(format!("emitted-corpus|{cls}"), format!("{e} [{label}]"), case.clone());
+                }
+                Ok(Ok(true)) => {
+                    sh.count("emitted_corpus_programs_ok", 1);
+                    sh.nontrivial(&("emitted-corpus", label));
+                }
+                Ok(Ok(false)) => sh.count("emitted_corpus_programs_rejected_by_harness", 1),
+            }
+            sh.end();
+        }
+    }
     // systematic sweeps are split across shards by offset
     for (name, src, b) in &containers {
         let small = b.len() <= 3000;
